@@ -894,13 +894,19 @@ def D6(m, R):
     from ..shapes import with_helpers
     calls = [c for g_ in with_helpers(m, f, 1) if g_.name != '_scrub_ansi_format_string' for c in _calls(g_, 'parse_graphic_sequence')]
     ok = len(calls) >= 1
+    from .P_more2 import erroneous_polarity
+    pol = erroneous_polarity(m)
+    keep = 'True' if pol is None else str(pol)      # the value of the flag under which unknown codes are kept (the parameter may have the opposite sense)
     for c in calls:
         got, _ = _bound_texts(c, pgs)
-        if got.get(pgs.params[1]) != 'True':
+        gv = got.get(pgs.params[1])
+        if gv is None and pgs.defaults.get(pgs.params[1]) is not None:
+            gv = norm(pgs.defaults.get(pgs.params[1]))
+        if gv != keep:
             ok = False
-    R.check(ok, f, calls[0] if calls else f.node, 'integer runs are parsed with add_erroneous=True (unknown codes kept verbatim)',
-            'an integer run is parsed with add_erroneous=%s: unknown codes would be dropped silently' % [
-                _bound_texts(c, pgs)[0].get(pgs.params[1]) for c in calls], construct='scrub int runs')
+    R.check(ok, f, calls[0] if calls else f.node, 'integer runs are parsed with %s=%s (unknown codes kept verbatim)' % (pgs.params[1], keep),
+            'an integer run is parsed with %s=%s, under which parse_graphic_sequence drops what it cannot determine: unknown codes given as integers vanish silently' % (
+                pgs.params[1], [_bound_texts(c, pgs)[0].get(pgs.params[1]) for c in calls]), construct='scrub int runs')
     fs = m.fn('%s._scrub_ansi_format_string' % ro.POINT)
     look = [n for n in fs.walk() if isinstance(n, ast.Subscript) and is_name(n.value, 'AnsiFormat')]
     ok = False
@@ -965,6 +971,13 @@ def D7(m, R):
         # (2) switch
         var, rest, problems = inplace_switch(body[1:], f.self_name)
         cons = name + ' skeleton'
+        deleg = [n for n in f.walk() if isinstance(n, ast.Call) and isinstance(n.func, ast.Attribute) and n.func.attr == 'center'
+                 and norm(n.func.value).endswith('.' + TEXT)] if name == 'center' else []
+        if deleg:
+            R.viol(f, deleg[0], 'the padded text is taken from str.center (%s): when the padding and the width are both odd str.center puts the extra fill character on the '
+                                'LEFT ("ab".center(5, "*") == "**ab*") while format() puts it on the right (format("ab", "*^5") == "*ab**")' % short(deleg[0]),
+                   construct=cons)
+            continue
         if var is None:
             R.undecided(f, f.node, 'in-place switch not recognised', construct=cons)
             continue
